@@ -40,7 +40,7 @@ PROP = dict(
                "(and mutants with a different one) and comparing =, {a}={b}, {a,b} count, dict lookup, repr, <, an operator "
                "context and the enumerator-level denotation.",
     design_ref="DESIGN.md section 6, C02",
-    env={"HARNESS_TIMEOUT_MS": "60000"},
+    env={"HARNESS_TIMEOUT_MS": "20000"},
     watch=["rel.GenericTuple.Equal", "rel.GenericTuple.Hash", "rel.GenericTuple.Canonical", "rel.GenericTuple.With",
            "rel.GenericTuple.Map", "rel.TupleBuilder.Finish",
            "rel.NewTuple", "rel.specialTuple", "rel.maybeSpecialTuple", "rel.StringCharTuple.Equal", "rel.StringCharTuple.Hash",
